@@ -1,6 +1,6 @@
 JOBS = [
-    dict(name='json', src='c13.cpp', fn='h_json', defines={'QM_STR_CAP': 10, 'QM_LIST_CAP': 4, 'QM_HASH_CAP': 11, 'QM_JSON_CAP': 11, 'VF_NATTR': 2}, defines_thorough={'VF_NATTR': 3}, unwind=14, timeout=900),
-    dict(name='json_attrs3', src='c13.cpp', fn='h_json', defines={'QM_STR_CAP': 10, 'QM_LIST_CAP': 4, 'QM_HASH_CAP': 11, 'QM_JSON_CAP': 11, 'VF_NATTR': 3}, unwind=14, timeout=1500, tiers=['thorough']),
+    dict(name='json', src='c13.cpp', fn='h_json', defines={'QM_STR_CAP': 10, 'QM_LIST_CAP': 9, 'QM_HASH_CAP': 11, 'QM_JSON_CAP': 11, 'VF_NATTR': 2}, defines_thorough={'VF_NATTR': 3}, unwind=14, timeout=900),
+    dict(name='json_attrs3', src='c13.cpp', fn='h_json', defines={'QM_STR_CAP': 10, 'QM_LIST_CAP': 9, 'QM_HASH_CAP': 11, 'QM_JSON_CAP': 11, 'VF_NATTR': 3}, unwind=14, timeout=1500, tiers=['thorough']),
 ]
 BOUNDS = {'quick': 'every message text of <=3 arbitrary UTF-16 units (null included), all 5 types, line 0..9999, file/function/category of <=2 printable ASCII characters or null pointers, <=2 custom attributes (string of <=2 arbitrary units / any int / bool) under 5 non-shadowing names, compact on/off', 'thorough': '<=3 custom attributes'}
 OUTSIDE = 'the JSON TEXT (syntax validity, escaping, number rendering, absence of raw line breaks inside strings) is produced by Qt (QJsonDocument::toJson), which is binary-only here: assumed by contract, not decided. List/map attribute values; longer texts.'
